@@ -106,7 +106,12 @@ fn c17_ffi_now_is_thin() {
         NOW_RESULT = res;
     }
     let reader = clock_bound_shm::verif_pub::reader_over(unsafe { std::ptr::addr_of_mut!(AREA).cast() });
-    let mut ctx = clockbound_ctx { err: Default::default(), reader };
+    // whatever a PREVIOUS call left in the context (the stored error is only a return slot): the outcome
+    // of this call must not depend on it
+    let prev: u8 = kani::any();
+    kani::assume(prev <= 4);
+    let prev_err = if prev == 0 { clockbound_err::default() } else { clockbound_err::from(err_of(prev)) };
+    let mut ctx = clockbound_ctx { err: prev_err, reader };
     let mut out = clockbound_now_result {
         earliest: libc::timespec { tv_sec: -7, tv_nsec: -7 },
         latest: libc::timespec { tv_sec: -7, tv_nsec: -7 },
@@ -149,4 +154,5 @@ fn c17_ffi_now_is_thin() {
     std::mem::forget(ctx);
     kani::cover!(sf == 0 && nf == 0, "C17.cover.ffi_now_ok");
     kani::cover!(sf == 0 && nf == 4, "C17.cover.ffi_now_causality");
+    kani::cover!(prev == 3 && sf == 0 && nf == 0, "C17.cover.ffi_now_ok_after_an_earlier_malformed_error");
 }
